@@ -34,6 +34,7 @@ type Core struct {
 	HeldSub    bool // GetStateChan blocks until released
 	HeldPoll   bool // IsRunning() blocks until the director supplies the answer
 	ErrOnStop  *RunResult // when set, an unheld Run returns this (a real error) once Stop() was called
+	Unhashable bool       // wrap as a value of a non-comparable type (only for runnables without capabilities)
 
 	mu        sync.Mutex
 	state     string
@@ -81,6 +82,13 @@ func (c *Core) String() string {
 		<-c.StringRelease
 	}
 	return fmt.Sprintf("r%d", c.Idx)
+}
+
+// SetInitialState sets the state the runnable reports before any Emit (default "New").
+func (c *Core) SetInitialState(s string) {
+	c.mu.Lock()
+	c.state = s
+	c.mu.Unlock()
 }
 
 // HoldNextString arms a one-shot park of the next String() call.
